@@ -149,3 +149,16 @@ Theorem C02_source_random_inits_feasible : forall sp cons fuel self n s' l,
   length l = Z.to_nat n /\ Forall (emit_ok sp cons) l /\ tape_cfg self s'.
 Proof. exact init_random_search_spec. Qed.
 Print Assumptions C02_source_random_inits_feasible.
+
+(* the whole list of initial positions built by the GENERATED Initializer (random, grid, vertices, warm start, random padding) is feasible,
+   provided the two abstract sections (_init_grid_search, _init_vertices: pinned by digest) return feasible positions only *)
+Theorem C02_source_init_positions_feasible : forall sp cons names igs iv,
+  (forall s n s' l, igs s n = Ok (s', l) -> same_cfg s s' /\ (length l <= Z.to_nat n)%nat) ->
+  (forall s n s' l, iv s n = Ok (s', l) -> same_cfg s s' /\ (length l <= Z.to_nat n)%nat) ->
+  forall fuel self0 iz s',
+  (forall s n s1 l, igs s n = Ok (s1, l) -> Forall (fun p => not_in_constraint sp cons p = Ok true) l) ->
+  (forall s n s1 l, iv s n = Ok (s1, l) -> Forall (fun p => not_in_constraint sp cons p = Ok true) l) ->
+  g_Initializer_init sp cons names igs iv fuel self0 iz = Ok s' ->
+  Forall (fun p => not_in_constraint sp cons p = Ok true) (in_init_positions_l s').
+Proof. exact source_init_positions_feasible. Qed.
+Print Assumptions C02_source_init_positions_feasible.
